@@ -3089,7 +3089,7 @@ func (dsc *dataStoreCommand) sort(sourceKeyName, byPattern string, by bool, dest
 			val.sortByStr = val.data
 			if !alpha {
 				f64, parseErr := strconv.ParseFloat(val.data, 64)
-				if parseErr != nil {
+				if parseErr != nil || math.IsNaN(f64) {
 					output.data = respErrorString("ERR One or more scores can't be converted into double")
 					return
 				}
@@ -3111,7 +3111,7 @@ func (dsc *dataStoreCommand) sort(sourceKeyName, byPattern string, by bool, dest
 					val.sortByStr = byVal
 					if !alpha {
 						f64, parseErr := strconv.ParseFloat(byVal, 64)
-						if parseErr != nil {
+						if parseErr != nil || math.IsNaN(f64) {
 							output.data = respErrorString("ERR One or more scores can't be converted into double")
 							return
 						}
